@@ -725,7 +725,6 @@ class gear(trapezoidal):
             self, "_lastresidual"
         ):  # if starting integration (missing last residual), so use 2nd order trapezoidal/cranknicolson
             trapezoidal.step(self, field, dtloc)
-            self.add_res(field, dtloc)
         else:
             self.calc_jacobian(field)
             self.calcrhs(field)
